@@ -63,6 +63,7 @@ type caseEnv struct {
 
 type built struct {
 	steps  []step
+	abs    string // abstraction of the authorization model of the first step (kind 7 record)
 	tok    *tokCase
 	direct func() directOut
 	stats  []string
@@ -531,7 +532,10 @@ func hostileModel(fx *fixture, r *prng, v int) (*openfgav1.WriteAuthorizationMod
 		}
 		note = fmt.Sprintf("ttu ring n=%d", n)
 	case 15: // exponential-looking diamond: r_i = r_{i+1} or r_{i+1}
-		n := rec.Pick(r, []int{20, 60, 200})
+		n := rec.Pick(r, []int{8, 12, 24})
+		if v >= 0 {
+			n = []int{8, 12, 24}[(v/nModelShapes)%3]
+		}
 		for i := 0; i < n; i++ {
 			nx := computed(fmt.Sprintf("e%d", i+1))
 			doc.Relations[fmt.Sprintf("e%d", i)] = &openfgav1.Userset{Userset: &openfgav1.Userset_Union{Union: &openfgav1.Usersets{Child: []*openfgav1.Userset{nx, nx, ttu("parent", fmt.Sprintf("e%d", i+1))}}}}
@@ -608,6 +612,64 @@ func hostileModel(fx *fixture, r *prng, v int) (*openfgav1.WriteAuthorizationMod
 		note = "valid base model"
 	}
 	return req, note
+}
+
+// modelAbs abstracts a model to what typesystem.hasCycle looks at: per type, the relations in
+// sorted-name order with their rewrites; (0) this, (1) tuple-to-userset, (2 i) computed userset on
+// the i-th relation of the type (i = number of relations when undefined), (3 children...) union /
+// intersection / difference / empty
+func modelAbs(req *openfgav1.WriteAuthorizationModelRequest) string {
+	var types []rec.V
+	tds := append([]*openfgav1.TypeDefinition(nil), req.GetTypeDefinitions()...)
+	sort.SliceStable(tds, func(a, b int) bool { return tds[a].GetType() < tds[b].GetType() })
+	for _, td := range tds {
+		names := make([]string, 0, len(td.GetRelations()))
+		for n := range td.GetRelations() {
+			names = append(names, n)
+		}
+		sort.Strings(names)
+		id := map[string]int{}
+		for i, n := range names {
+			id[n] = i
+		}
+		var enc func(u *openfgav1.Userset) rec.V
+		enc = func(u *openfgav1.Userset) rec.V {
+			switch x := u.GetUserset().(type) {
+			case *openfgav1.Userset_This:
+				return rec.L(rec.I(0))
+			case *openfgav1.Userset_TupleToUserset:
+				return rec.L(rec.I(1))
+			case *openfgav1.Userset_ComputedUserset:
+				i, ok := id[x.ComputedUserset.GetRelation()]
+				if !ok {
+					i = len(names)
+				}
+				return rec.L(rec.I(2), rec.I(i))
+			case *openfgav1.Userset_Union:
+				vs := []rec.V{rec.I(3)}
+				for _, c := range x.Union.GetChild() {
+					vs = append(vs, enc(c))
+				}
+				return rec.L(vs...)
+			case *openfgav1.Userset_Intersection:
+				vs := []rec.V{rec.I(3)}
+				for _, c := range x.Intersection.GetChild() {
+					vs = append(vs, enc(c))
+				}
+				return rec.L(vs...)
+			case *openfgav1.Userset_Difference:
+				return rec.L(rec.I(3), enc(x.Difference.GetBase()), enc(x.Difference.GetSubtract()))
+			default:
+				return rec.L(rec.I(3))
+			}
+		}
+		var rels []rec.V
+		for _, n := range names {
+			rels = append(rels, enc(td.GetRelations()[n]))
+		}
+		types = append(types, rec.L(rels...))
+	}
+	return string(rec.L(types...))
 }
 
 // expensive CEL conditions that compile
@@ -952,7 +1014,14 @@ func init() {
 			if !isValidUTF8(tok) {
 				return built{steps: []step{oneStep(rpc, rpc.newReq(fx, r), nil, "baseline")}, stats: []string{"tok_other"}}
 			}
-			return built{steps: []step{oneStep(rpc, m, nil, fmt.Sprintf("%s token=%q", rpc.name, clip(tok, 40)))}, stats: []string{"tok_other:" + rpc.name}}
+			var tc *tokCase
+			if which == 3 { // the same ReadPage code on a listing whose length the model is not told
+				tc = &tokCase{n: -1, hasPS: true, ps: int64(ps.GetValue()), token: tok}
+				if d, err := base64.URLEncoding.DecodeString(tok); err == nil {
+					tc.decoded, tc.decodeOK = d, true
+				}
+			}
+			return built{steps: []step{oneStep(rpc, m, nil, fmt.Sprintf("%s token=%q", rpc.name, clip(tok, 40)))}, tok: tc, stats: []string{"tok_other:" + rpc.name}}
 		}},
 		{name: "strfield", weight: 22, build: func(fx *fixture, r *prng, v int) built {
 			rpc := rec.Pick(r, rpcs)
@@ -1219,7 +1288,7 @@ func init() {
 					return rpcByName(fn), finishWire(m, nil)
 				}})
 			}
-			return built{steps: append([]step{first}, follow...), stats: []string{"model:" + strings.SplitN(note, " ", 3)[0]}}
+			return built{steps: append([]step{first}, follow...), abs: modelAbs(req), stats: []string{"model:" + strings.SplitN(note, " ", 3)[0]}}
 		}},
 		{name: "cel", variants: len(celExprs), weight: 5, build: func(fx *fixture, r *prng, v int) built {
 			req, e := celModel(fx, r, v)
@@ -1282,8 +1351,15 @@ func init() {
 				path += "?" + rec.Pick(r, []string{"page_size=2&continuation_token=LTF8", "page_size=-1", "page_size=1e9", "continuation_token=" + strings.Repeat("A", 6000), "type=%ff%fe", "page_size=2&page_size=3", "name=%00"})
 				body = nil
 			}
+			var tc *tokCase
+			if name == "Read" && (strings.HasPrefix(note, "negative offset token over HTTP") || strings.HasPrefix(note, "negative page size")) {
+				tc = &tokCase{n: -1, hasPS: true, ps: 2, token: "LTF8", decoded: []byte("-1|"), decodeOK: true}
+				if strings.HasPrefix(note, "negative page size") {
+					tc.ps = -1
+				}
+			}
 			return built{steps: []step{{rpc: rpc, http: &httpReq{verb: rpc.httpVerb, path: path, body: body}, note: "HTTP " + name + " " + note, heavy: true}},
-				stats: []string{"http:" + name}}
+				tok: tc, stats: []string{"http:" + name}}
 		}},
 	}
 	generators = append(generators, directGenerators()...)
